@@ -498,6 +498,13 @@ func (f *facts) rangeOf(t *term.Term) rng {
 			m = b.hi
 		}
 		r = rng{0, m}
+		// masking with a constant whose lowest set bit lies above everything the other side can hold
+		if b.lo == b.hi && b.lo != 0 && a.hi < b.lo&-b.lo {
+			r = rng{0, 0}
+		}
+		if a.lo == a.hi && a.lo != 0 && b.hi < a.lo&-a.lo {
+			r = rng{0, 0}
+		}
 	case term.OBOr, term.OBXor:
 		a, b := arg(0), arg(1)
 		n := bits.Len64(a.hi | b.hi)
